@@ -121,7 +121,8 @@ def buildOpen (pc : Word → Nat) (siw : Word → Nat → Nat) (rate : Nat) (pos
       advanceWords := [], numOpens := 0, advanceRank := [0] }
   else
     let numOpens := positions.length
-    let ibNumWords := divCeil textLen 64
+    -- one extra bit beyond text_len: a node can start exactly at text_len
+    let ibNumWords := divCeil (textLen + 1) 64
     let advanceNumWords := divCeil numOpens 64
     let st := openLoop positions 0
       { ib := List.replicate ibNumWords 0, adv := List.replicate advanceNumWords 0, prev := none, ibOnes := 0 }
